@@ -814,3 +814,561 @@ Proof.
   { apply dict_set_ok; [vm_compute; reflexivity | exact Henc | exact Hex]. }
   rewrite Hh. cbv zeta. eauto.
 Qed.
+
+(* ------------------------------------------------------------------------------------------------ *)
+(* codecs and newlines: finite facts about the modelled codec catalogue                              *)
+(* ------------------------------------------------------------------------------------------------ *)
+(* the dynamically typed encoding [v] is a str that spells a codec the model executes *)
+Definition codec_for (v : wv) (canon : bytes) (c : codec) : Prop :=
+  exists e eb, v = WStr e /\ c_enc ascii e = Some eb /\ lookup_codec eb = LOk canon c.
+
+Lemma lookup_modelled : forall eb canon c, lookup_codec eb = LOk canon c ->
+  In (canon, c) modelled /\ canonical_or_same eb = canon.
+Proof.
+  intros eb canon c H. unfold lookup_codec in H. unfold canonical_or_same.
+  destruct (find_row eb GenCodecs.rows) as [r|]; [|discriminate].
+  destruct (assoc_get beq (GenCodecs.cr_canonical r) modelled) as [c'|] eqn:E; [|discriminate].
+  inversion H; subst. split; [apply assoc_get_In; exact E | reflexivity].
+Qed.
+
+(* every newline string the writer can pick *)
+Definition newlines : list text :=
+  map snd GenText.newline_formats ++ [nl_text GenText.le_unix; nl_text GenText.le_dos].
+
+Definition strip_bom_c (canon data : bytes) : bytes :=
+  match assoc_get beq canon GenText.boms with
+  | Some ((b0 :: _) as bs) => if existsb (fun b => bstarts b data) bs then skipn (length b0) data else data
+  | _ => data
+  end.
+
+Lemma strip_bom_c_eq : forall eb canon data, canonical_or_same eb = canon ->
+  strip_bom data (Some eb) = strip_bom_c canon data.
+Proof. intros eb canon data H. unfold strip_bom, strip_bom_c. rewrite H. reflexivity. Qed.
+
+Definition nl_check : bool :=
+  forallb (fun p : bytes * codec =>
+             forallb (fun nl => match c_enc (snd p) nl with
+                                | Some b => nonempty (strip_bom_c (fst p) b)
+                                | None => false
+                                end) newlines) modelled.
+
+Lemma nl_check_ok : nl_check = true.
+Proof. vm_compute. reflexivity. Qed.
+
+Lemma nl_enc : forall eb canon c nl, lookup_codec eb = LOk canon c -> In nl newlines ->
+  exists b, py_encode nl eb = Ok b /\ nonempty (strip_bom b (Some eb)) = true.
+Proof.
+  intros eb canon c nl H Hnl. destruct (lookup_modelled _ _ _ H) as [Hin Hcan].
+  pose proof nl_check_ok as Hc. unfold nl_check in Hc. rewrite forallb_forall in Hc.
+  specialize (Hc _ Hin). rewrite forallb_forall in Hc. specialize (Hc _ Hnl). cbn [fst snd] in Hc.
+  unfold py_encode. rewrite H. destruct (c_enc c nl) as [b|]; [|discriminate].
+  exists b. split; [reflexivity|]. rewrite (strip_bom_c_eq _ _ _ Hcan). exact Hc.
+Qed.
+
+Lemma py_encode_ok : forall eb canon c t b, lookup_codec eb = LOk canon c -> c_enc c t = Some b ->
+  py_encode t eb = Ok b.
+Proof. intros eb canon c t b H E. unfold py_encode. rewrite H, E. reflexivity. Qed.
+
+(* option-value sets: the accepted values render as ASCII *)
+Definition choice_sets_ascii : bool :=
+  forallb bytes_ascii GenText.line_endings_values && forallb bytes_ascii GenText.mimetypes
+  && forallb bytes_ascii GenText.diff_types && forallb bytes_ascii GenText.meta_formats
+  && bytes_ascii GenText.le_unix && bytes_ascii GenText.le_dos.
+Lemma choice_sets_ascii_ok : choice_sets_ascii = true.
+Proof. vm_compute. reflexivity. Qed.
+
+(* [v] is omitted (None) or one of the strings of the value set *)
+Definition choice_ok (v : wv) (set : list bytes) : Prop :=
+  v = WNone \/ exists x, In x set /\ v = WStr (ascii_text x).
+
+Lemma in_strset_member : forall x set, In x set -> in_strset (WStr (ascii_text x)) set = Ok true.
+Proof.
+  intros x set H. unfold in_strset. f_equal. apply existsb_exists. exists x. split; [exact H | apply teq_refl].
+Qed.
+
+Lemma guess_text_cases : forall t,
+  guess_line_endings_text t = (GenText.le_dos, nl_text GenText.le_dos) \/
+  guess_line_endings_text t = (GenText.le_unix, nl_text GenText.le_unix).
+Proof.
+  intro t. unfold guess_line_endings_text. cbv zeta.
+  destruct (find N.eqb _ t); [destruct (suffixb _ _ _)|]; auto.
+Qed.
+
+(* the encoding a content call works with: the argument, or (text sections) the innermost container's *)
+Definition eff_encoding (s : wstate) (encoding : wv) (inherit : bool) : wv :=
+  if negb (wv_truthy encoding) && inherit then hd WNone (w_stack s) else encoding.
+
+(* the part of _prepare_content after the newline has been chosen (convertible copy, see prepare_* below) *)
+Definition prep_tail (content : wcontent) (indent encoding1 : wv) (nl0 : text + bytes) (le_out : wv)
+  : res (bytes * wv) :=
+  do newline_b <- (match nl0 with inl t => encode_dyn t encoding1 | inr b => Ok b end);
+  do content_b <- (match content with CText t => encode_dyn t encoding1 | CBytes b => Ok b end);
+  let en1 : option bytes := match encoding1 with WStr e => c_enc ascii e | _ => None end in
+  let newline := strip_bom newline_b en1 in
+  let content1 := if bends newline content_b then content_b else content_b ++ newline in
+  if wv_truthy indent then
+    do indent_str <- (match indent with
+                      | WInt z => Ok (repeat_b x20 (Z.to_nat z))
+                      | WBool true => Ok [x20]
+                      | _ => Err EType
+                      end);
+    do lines <- split_lines content1 newline true;
+    Ok (concat (map (fun l => indent_str ++ l) lines), le_out)
+  else Ok (content1, le_out).
+
+Lemma split_lines_ok : forall data nl, data <> [] -> nl <> [] -> exists ls, split_lines data nl true = Ok ls.
+Proof.
+  intros data nl Hd Hn. unfold split_lines, split_lines_g.
+  destruct data; [congruence|]. destruct nl; [congruence|]. cbn [is_nil].
+  destruct (suffixb _ _ _); eauto.
+Qed.
+
+Lemma nonempty_ne : forall {A} (l : list A), nonempty l = true -> l <> [].
+Proof. intros A l H E. subst. discriminate. Qed.
+
+Lemma bends_nil : forall nl, nl <> [] -> bends nl [] = false.
+Proof.
+  intros nl H. unfold bends, suffixb, frev. cbn [rev_append]. destruct nl as [|a nl]; [congruence|].
+  rewrite <- rev_alt. cbn [rev]. destruct (rev nl); reflexivity.
+Qed.
+
+Lemma content1_ne : forall nl cb, nl <> [] -> (if bends nl cb then cb else cb ++ nl) <> [].
+Proof.
+  intros nl cb H. destruct cb as [|x cb].
+  - rewrite bends_nil by assumption. exact H.
+  - destruct (bends nl (x :: cb)); cbn; discriminate.
+Qed.
+
+Lemma prep_tail_text_ok : forall t ind e eb canon c cb nl lo,
+  (ind = WNone \/ exists z, ind = WInt z) ->
+  c_enc ascii e = Some eb -> lookup_codec eb = LOk canon c -> c_enc c t = Some cb ->
+  In nl newlines ->
+  exists body, prep_tail (CText t) ind (WStr e) (inl nl) lo = Ok (body, lo).
+Proof.
+  intros t ind e eb canon c cb nl lo Hind Heb Hlk Hcb Hnl.
+  unfold prep_tail, encode_dyn. rewrite Heb.
+  destruct (nl_enc _ _ _ _ Hlk Hnl) as (nb & Hnb & Hne).
+  rewrite Hnb, (py_encode_ok _ _ _ _ _ Hlk Hcb). cbn [bind]. cbv zeta.
+  destruct (wv_truthy ind) eqn:Etr; [|eauto].
+  destruct Hind as [-> | [z ->]]; [discriminate|]. cbn [bind].
+  destruct (split_lines_ok
+              (if bends (strip_bom nb (Some eb)) cb then cb else cb ++ strip_bom nb (Some eb))
+              (strip_bom nb (Some eb))) as [ls Hls].
+  - apply content1_ne. apply nonempty_ne; exact Hne.
+  - apply nonempty_ne; exact Hne.
+  - rewrite Hls. cbn [bind]. eauto.
+Qed.
+
+Lemma choice_rv : forall x, (In x GenText.line_endings_values \/ In x GenText.mimetypes \/ In x GenText.diff_types
+                            \/ In x GenText.meta_formats \/ x = GenText.le_unix \/ x = GenText.le_dos) ->
+  rv (WStr (ascii_text x)) = true.
+Proof.
+  intros x H. pose proof choice_sets_ascii_ok as Hc. unfold choice_sets_ascii in Hc.
+  do 5 (apply andb_true_iff in Hc as [Hc ?]).
+  cbn [rv]. fold (bytes_ascii x).
+  destruct H as [H|[H|[H|[H|[H|H]]]]]; subst; auto;
+    match goal with Hf : forallb bytes_ascii ?l = true, Hi : In x ?l |- _ =>
+      exact (proj1 (forallb_forall _ _) Hf x Hi) end.
+Qed.
+
+Lemma cur_encoding_hd : forall s, w_stack s <> [] -> cur_encoding s = Ok (hd WNone (w_stack s)).
+Proof. intros s H. unfold cur_encoding. destruct (w_stack s); [congruence | reflexivity]. Qed.
+
+Lemma enc_ascii_roundtrip_choice :
+  forallb (fun x => match c_enc ascii (ascii_text x) with Some y => beq x y | None => false end)
+          GenText.line_endings_values = true.
+Proof. vm_compute. reflexivity. Qed.
+
+Lemma prepare_text_ok : forall s t ind le enc canon c cb,
+  w_stack s <> [] -> t <> [] ->
+  choice_ok le GenText.line_endings_values ->
+  (ind = WNone \/ exists z, ind = WInt z) ->
+  codec_for (eff_encoding s enc true) canon c -> c_enc c t = Some cb ->
+  exists body le_out, prepare_content s (CText t) ind le enc true = Ok (body, le_out) /\ rv le_out = true.
+Proof.
+  intros s t ind le enc canon c cb Hne Ht Hle Hind (e & eb & He & Heb & Hlk) Hcb.
+  assert (E1 : (if negb (wv_truthy enc) && true then cur_encoding s else Ok enc) = Ok (WStr e)).
+  { unfold eff_encoding in He. destruct (negb (wv_truthy enc) && true).
+    - rewrite cur_encoding_hd by assumption. congruence.
+    - congruence. }
+  assert (Hfin : forall nl lo, In nl newlines -> rv lo = true ->
+            exists body le_out, prep_tail (CText t) ind (WStr e) (inl nl) lo = Ok (body, le_out) /\ rv le_out = true).
+  { intros nl lo Hnl Hlo.
+    destruct (prep_tail_text_ok t ind e eb canon c cb nl lo Hind Heb Hlk Hcb Hnl) as [body Hb]. eauto. }
+  assert (Hguess : exists nl lo, (let (le0, nl) := guess_line_endings_text t in
+                                  @Ok ((text + bytes) * wv) (inl nl, WStr (ascii_text le0))) = Ok (inl nl, lo)
+                                 /\ In nl newlines /\ rv lo = true).
+  { destruct (guess_text_cases t) as [Eg|Eg]; rewrite Eg; do 2 eexists; (split; [reflexivity|]); split;
+      try (apply choice_rv; auto 10); unfold newlines; apply in_or_app; right; cbn; auto. }
+  destruct Hguess as (gnl & glo & Eg & Hgnl & Hglo).
+  unfold prepare_content.
+  destruct t as [|c0 t0]; [congruence|]. cbn [is_nil].
+  destruct Hle as [-> | (x & Hx & ->)].
+  - cbn [bind negb]. rewrite E1. cbn [bind]. rewrite Eg. cbn [bind]. exact (Hfin gnl glo Hgnl Hglo).
+  - rewrite (in_strset_member x _ Hx). cbn [bind negb]. rewrite E1. cbn [bind].
+    destruct (match c_enc ascii (ascii_text x) with
+              | Some le => assoc_get beq le GenText.newline_formats
+              | None => None
+              end) as [nl|] eqn:Enl.
+    + cbn [bind]. apply (Hfin nl (WStr (ascii_text x))).
+      * destruct (c_enc ascii (ascii_text x)) as [le|]; [|discriminate].
+        apply assoc_get_In in Enl. unfold newlines. apply in_or_app. left.
+        change nl with (snd (le, nl)). apply in_map. exact Enl.
+      * apply choice_rv; auto.
+    + rewrite Eg. cbn [bind]. exact (Hfin gnl glo Hgnl Hglo).
+Qed.
+
+Lemma guess_bytes_ok : forall b eb canon c, lookup_codec eb = LOk canon c ->
+  exists le nlb, guess_line_endings_bytes b (Some eb) = Ok (le, nlb) /\ (le = GenText.le_dos \/ le = GenText.le_unix).
+Proof.
+  intros b eb canon c Hlk. unfold guess_line_endings_bytes, enc_or_ascii.
+  destruct (nl_enc eb canon c (nl_text GenText.le_unix) Hlk) as (u & Hu & _).
+  { unfold newlines. apply in_or_app. right. cbn; auto. }
+  destruct (nl_enc eb canon c (nl_text GenText.le_dos) Hlk) as (d & Hd & _).
+  { unfold newlines. apply in_or_app. right. cbn; auto. }
+  rewrite Hu. cbn [bind]. rewrite Hd. cbn [bind]. cbv zeta.
+  destruct (bfind _ b); [destruct (bends _ _)|]; eauto.
+Qed.
+
+Lemma prepare_bytes_ok : forall s b le enc canon c,
+  b <> [] -> choice_ok le GenText.line_endings_values ->
+  codec_for (if wv_truthy enc then enc else WStr (ascii_text (B "ascii"))) canon c ->
+  exists body le_out, prepare_content s (CBytes b) WNone le enc false = Ok (body, le_out) /\ rv le_out = true.
+Proof.
+  intros s b le enc canon c Hb Hle (e & eb & He & Heb & Hlk).
+  assert (Hfin : forall nb lo, rv lo = true ->
+            exists body le_out, prep_tail (CBytes b) WNone enc (inr nb) lo = Ok (body, le_out) /\ rv le_out = true).
+  { intros nb lo Hlo. unfold prep_tail. cbn [bind wv_truthy]. cbv zeta. eauto. }
+  unfold prepare_content.
+  destruct b as [|b0 b1]; [congruence|]. cbn [is_nil]. rewrite andb_false_r.
+  destruct Hle as [-> | (x & Hx & ->)].
+  - cbn [bind negb]. rewrite He. unfold enc_name. rewrite Heb. cbn [bind].
+    destruct (guess_bytes_ok (b0 :: b1) eb canon c Hlk) as (le & nlb & Hg & Hle).
+    rewrite Hg. cbn [bind fst snd].
+    apply (Hfin nlb (WStr (ascii_text le))). apply choice_rv. destruct Hle; auto 10.
+  - rewrite (in_strset_member x _ Hx). cbn [bind negb]. rewrite He.
+    destruct (match c_enc ascii (ascii_text x) with
+              | Some le => assoc_get beq le GenText.newline_formats
+              | None => None
+              end) as [nl|] eqn:Enl.
+    + assert (Hnl : In nl newlines).
+      { destruct (c_enc ascii (ascii_text x)) as [le|]; [|discriminate].
+        apply assoc_get_In in Enl. unfold newlines. apply in_or_app. left.
+        change nl with (snd (le, nl)). apply in_map. exact Enl. }
+      unfold encode_dyn at 1. rewrite Heb.
+      destruct (nl_enc eb canon c nl Hlk Hnl) as (nb & Hnb & _). rewrite Hnb. cbn [bind].
+      apply (Hfin nb (WStr (ascii_text x))). apply choice_rv; auto.
+    + unfold enc_name. rewrite Heb. cbn [bind].
+      destruct (guess_bytes_ok (b0 :: b1) eb canon c Hlk) as (le & nlb & Hg & Hle).
+      rewrite Hg. cbn [bind fst snd].
+      apply (Hfin nlb (WStr (ascii_text le))). apply choice_rv. destruct Hle; auto 10.
+Qed.
+
+
+(* ------------------------------------------------------------------------------------------------ *)
+(* C09 (4), converse: well-formed arguments + table membership => accepted                           *)
+(* ------------------------------------------------------------------------------------------------ *)
+Lemma ncontent_accept : forall name content le enc ind wle inh extra s body lo,
+  validate_section s (build_id (cur_level s + 1 - 1) name) = Ok tt ->
+  prepare_content s content ind le enc inh = Ok (body, lo) ->
+  rv lo = true -> rv ind = true -> rv enc = true -> Forall kv_ok extra ->
+  exists s', new_content_section name content le enc ind wle inh extra s = (s', Ok tt).
+Proof.
+  intros name content le enc ind wle inh extra s body lo Hv Hp Hlo Hind Henc Hex.
+  rewrite ncontent_eq, Hv, Hp. cbv zeta.
+  match goal with |- context [render_header ?sec ?ho] => destruct (render_header_ok sec ho) as [h Hh] end.
+  { assert (H0 : Forall kv_ok (dict_set "length" (content_length body)
+                                 (dict_set "indent" ind (dict_set "encoding" enc extra)))).
+    { repeat (apply dict_set_ok; [vm_compute; reflexivity | first [assumption | reflexivity] |]). exact Hex. }
+    destruct wle; [apply dict_set_ok; [vm_compute; reflexivity | assumption | exact H0] | exact H0]. }
+  rewrite Hh. eauto.
+Qed.
+
+(* an [encoding=] argument is None or a str *)
+Definition enc_arg_ok (v : wv) : Prop := v = WNone \/ exists e, v = WStr e.
+
+(* text content [t] can be written in state [s] with the argument [encoding]: the effective encoding (the argument,
+   or the innermost open container's when the argument is None/empty) spells a modelled codec that can encode [t] *)
+Definition text_args_ok (s : wstate) (t : text) (encoding : wv) : Prop :=
+  enc_arg_ok encoding /\
+  exists canon c, codec_for (eff_encoding s encoding true) canon c /\ exists b, c_enc c t = Some b.
+
+Definition args_ok (s : wstate) (c : call) : Prop :=
+  match c with
+  | NewChange e | NewFile e => rv e = true       (* None / ASCII str (/ int / bool: rendered by '%s') *)
+  | WritePreamble text encoding indent le mimetype =>
+      exists t, text = WStr t /\ t <> [] /\ text_args_ok s t encoding /\
+      (indent = None \/ indent = Some WNone \/ exists z, indent = Some (WInt z)) /\
+      choice_ok le GenText.line_endings_values /\ choice_ok mimetype GenText.mimetypes
+  | WriteMeta md encoding fmt =>
+      exists kv d, md = WDict (JObj kv) /\ kv <> [] /\ json_dump (JObj kv) = Ok d /\
+      text_args_ok s (ascii_text d) encoding /\
+      (fmt = None \/ exists x, In x GenText.meta_formats /\ fmt = Some (WStr (ascii_text x)))
+  | WriteDiff content dt encoding le =>
+      exists b, content = WBytes b /\ b <> [] /\ choice_ok dt GenText.diff_types /\
+      choice_ok le GenText.line_endings_values /\
+      (encoding = WNone \/ (wv_truthy encoding = true /\ exists canon c, codec_for encoding canon c))
+  end.
+
+Lemma text_enc_rv : forall s t enc, text_args_ok s t enc -> rv enc = true.
+Proof.
+  intros s t enc ([-> | [e ->]] & canon & c & (e' & eb & He & Heb & _) & _); [reflexivity|].
+  cbn [rv]. unfold eff_encoding in He. cbn [wv_truthy] in He.
+  destruct e as [|x e]; [reflexivity|]. cbn [nonempty negb andb] in He. inversion He; subst.
+  eapply enc_ascii_is_ascii; eauto.
+Qed.
+
+Lemma choice_ok_rv_gen : forall v set,
+  (forall x, In x set -> rv (WStr (ascii_text x)) = true) -> choice_ok v set -> rv v = true.
+Proof. intros v set H [-> | (x & Hx & ->)]; [reflexivity | auto]. Qed.
+
+Lemma choice_in_strset : forall v set, choice_ok v set ->
+  match v with WNone => Ok true | v => in_strset v set end = Ok true.
+Proof. intros v set [-> | (x & Hx & ->)]; [reflexivity | apply in_strset_member; exact Hx]. Qed.
+
+Lemma ascii_codec_for : exists canon c, codec_for (WStr (ascii_text (B "ascii"))) canon c.
+Proof.
+  exists (B "ascii"), ascii. exists (ascii_text (B "ascii")), (B "ascii").
+  split; [reflexivity|]. split; vm_compute; reflexivity.
+Qed.
+
+Lemma default_meta_format_ok : In GenText.meta_format_json GenText.meta_formats.
+Proof. apply in_ids_In. vm_compute. reflexivity. Qed.
+
+Lemma dump_obj_nonempty : forall kv d, kv <> [] -> json_dump (JObj kv) = Ok d -> d <> [].
+Proof.
+  intros kv d Hkv H. unfold json_dump in H. destruct kv as [|p kv]; [congruence|].
+  cbn [dump] in H.
+  match type of H with (do body <- ?X; _) = _ => destruct X as [body|e] end; [|discriminate].
+  cbn [bind] in H. inversion H. discriminate.
+Qed.
+
+Theorem C09_accept_complete : forall s c p,
+  reachable s -> args_ok s c -> w_prev s = Some p -> In (target s c) (table p) ->
+  exists s', do_call c s = (s', Ok tt).
+Proof.
+  intros s c p Hs Hargs Hp Hin.
+  pose proof (Inv_stack s (reachable_inv s Hs)) as Hne.
+  pose proof (proj2 (validate_ok_table s _ p Hp) Hin) as Hv.
+  destruct c as [en|en|text enc ind le mt|md enc fmt|content dt enc le]; cbn [do_call target args_ok] in *.
+  - apply ncs_accept; auto. unfold GenText.writer_level_change; lia.
+  - apply ncs_accept; auto. unfold GenText.writer_level_file; lia.
+  - destruct Hargs as (t & -> & Ht & Htx & Hind & Hle & Hmt).
+    rewrite bind_lift, (choice_in_strset _ _ Hmt). cbn [negb].
+    pose proof (text_enc_rv _ _ _ Htx) as Hrenc.
+    destruct Htx as (_ & canon & c & Hcodec & cb & Hcb).
+    set (ind' := match ind with Some v => v | None => WInt GenText.default_indent end).
+    assert (Hind' : ind' = WNone \/ exists z, ind' = WInt z).
+    { subst ind'. destruct Hind as [-> | [-> | [z ->]]]; eauto. }
+    destruct (prepare_text_ok s t ind' le enc canon c cb Hne Ht Hle Hind' Hcodec Hcb) as (body & lo & Hprep & Hlo).
+    eapply ncontent_accept; eauto.
+    + destruct Hind' as [-> | [z ->]]; reflexivity.
+    + constructor; [|constructor]. split; [vm_compute; reflexivity|]. cbn [snd].
+      eapply choice_ok_rv_gen; [|exact Hmt]. intros x Hx. apply choice_rv; auto.
+  - destruct Hargs as (kv & d & -> & Hkv & Hd & Htx & Hfmt).
+    assert (Htr : wv_truthy (WDict (JObj kv)) = true) by (destruct kv; [congruence | reflexivity]).
+    rewrite Htr. cbn [negb].
+    set (fmt' := match fmt with Some v => v | None => WStr (ascii_text GenText.meta_format_json) end).
+    assert (Hfmt' : exists x, In x GenText.meta_formats /\ fmt' = WStr (ascii_text x)).
+    { subst fmt'. destruct Hfmt as [-> | (x & Hx & ->)]; eauto using default_meta_format_ok. }
+    destruct Hfmt' as (x & Hx & Hfx). rewrite Hfx.
+    rewrite bind_lift, (in_strset_member x _ Hx). cbn [negb].
+    rewrite bind_lift, Hd.
+    pose proof (text_enc_rv _ _ _ Htx) as Hrenc.
+    destruct Htx as (_ & canon & c & Hcodec & cb & Hcb).
+    assert (Hne_d : ascii_text d <> []).
+    { pose proof (dump_obj_nonempty kv d Hkv Hd). destruct d; [congruence | discriminate]. }
+    destruct (prepare_text_ok s (ascii_text d) WNone WNone enc canon c cb Hne Hne_d) as (body & lo & Hprep & Hlo);
+      auto; [left; reflexivity|].
+    eapply ncontent_accept; eauto.
+    constructor; [|constructor]. split; [vm_compute; reflexivity|]. cbn [snd]. apply choice_rv; auto 10.
+  - destruct Hargs as (b & -> & Hb & Hdt & Hle & Henc).
+    rewrite bind_lift, (choice_in_strset _ _ Hdt). cbn [negb].
+    assert (Hc : (exists canon c, codec_for (if wv_truthy enc then enc else WStr (ascii_text (B "ascii"))) canon c)
+                 /\ rv enc = true).
+    { destruct Henc as [-> | (Htr & canon & c & Hc)].
+      - split; [exact ascii_codec_for | reflexivity].
+      - rewrite Htr. split; [eauto|]. destruct Hc as (e & eb & -> & Heb & _). cbn [rv].
+        eapply enc_ascii_is_ascii; eauto. }
+    destruct Hc as ((canon & c & Hc) & Hrenc).
+    destruct (prepare_bytes_ok s b le enc canon c Hb Hle Hc) as (body & lo & Hprep & Hlo).
+    eapply ncontent_accept; eauto.
+    constructor; [|constructor]. split; [vm_compute; reflexivity|]. cbn [snd].
+    eapply choice_ok_rv_gen; [|exact Hdt]. intros x Hx. apply choice_rv; auto 10.
+Qed.
+
+(* the characterisation: with well-formed arguments a call is accepted exactly when its section may follow
+   the previously written one *)
+Theorem C09_accept_iff : forall s c, reachable s -> args_ok s c ->
+  ((exists s', do_call c s = (s', Ok tt)) <-> (exists p, w_prev s = Some p /\ In (target s c) (table p))).
+Proof.
+  intros s c Hs Ha. split.
+  - intros [s' H]. eapply C09_accept_order; eauto.
+  - intros (p & Hp & Hin). eapply C09_accept_complete; eauto.
+Qed.
+
+(* ... and rejected with the library's order error otherwise *)
+Theorem C09_reject_order : forall s c p s' r, reachable s -> w_prev s = Some p -> ~ In (target s c) (table p) ->
+  do_call c s = (s', r) -> exists e, r = Err e /\ s' = s.
+Proof.
+  intros s c p s' r Hs Hp Hnin H. destruct r as [[]|e].
+  - exfalso. destruct (C09_accept_order s c s' Hs H) as (p' & Hp' & Hin). congruence.
+  - exists e. split; [reflexivity|]. eapply C09_atomic; eauto.
+Qed.
+
+Lemma validate_not_in : forall s sec p,
+  w_prev s = Some p -> In p ids -> ~ In sec (table p) -> validate_section s sec = Err ELibOrder.
+Proof.
+  intros s sec p Hp Hid Hnin. unfold validate_section. rewrite Hp.
+  pose proof (id_ok_of p Hid) as Hok. unfold id_ok in Hok. unfold table in Hnin.
+  destruct (table_get p) as [row|]; [|discriminate].
+  destruct (in_ids sec row) eqn:E; [|reflexivity]. exfalso. apply Hnin. apply in_ids_In. exact E.
+Qed.
+
+(* with well-formed arguments, a call whose section may not follow the previous one raises the library's
+   order error (DiffXSectionOrderError) — and, by C09_atomic, changes nothing *)
+Theorem C09_reject_order_error : forall s c p,
+  reachable s -> args_ok s c -> w_prev s = Some p -> ~ In (target s c) (table p) ->
+  do_call c s = (s, Err ELibOrder).
+Proof.
+  intros s c p Hs Hargs Hp Hnin.
+  pose proof (reachable_inv s Hs) as HI. pose proof (Inv_stack s HI) as Hne.
+  assert (Hid : In p ids).
+  { destruct HI as (p' & Hp' & Hid & _). congruence. }
+  pose proof (validate_not_in s _ p Hp Hid Hnin) as Hv.
+  destruct c as [en|en|text enc ind le mt|md enc fmt|content dt enc le]; cbn [do_call target args_ok] in *.
+  - rewrite ncs_eq, Hv; [reflexivity | exact Hne | unfold GenText.writer_level_change; lia].
+  - rewrite ncs_eq, Hv; [reflexivity | exact Hne | unfold GenText.writer_level_file; lia].
+  - destruct Hargs as (t & -> & Ht & Htx & Hind & Hle & Hmt).
+    rewrite bind_lift, (choice_in_strset _ _ Hmt). cbn [negb]. rewrite ncontent_eq, Hv. reflexivity.
+  - destruct Hargs as (kv & d & -> & Hkv & Hd & Htx & Hfmt).
+    assert (Htr : wv_truthy (WDict (JObj kv)) = true) by (destruct kv; [congruence | reflexivity]).
+    rewrite Htr. cbn [negb].
+    set (fmt' := match fmt with Some v => v | None => WStr (ascii_text GenText.meta_format_json) end).
+    assert (Hfmt' : exists x, In x GenText.meta_formats /\ fmt' = WStr (ascii_text x)).
+    { subst fmt'. destruct Hfmt as [-> | (x & Hx & ->)]; eauto using default_meta_format_ok. }
+    destruct Hfmt' as (x & Hx & Hfx). rewrite Hfx.
+    rewrite bind_lift, (in_strset_member x _ Hx). cbn [negb].
+    rewrite bind_lift, Hd, ncontent_eq, Hv. reflexivity.
+  - destruct Hargs as (b & -> & Hb & Hdt & Hle & Henc).
+    rewrite bind_lift, (choice_in_strset _ _ Hdt). cbn [negb]. rewrite ncontent_eq, Hv. reflexivity.
+Qed.
+
+(* ------------------------------------------------------------------------------------------------ *)
+(* malformed arguments are rejected (whatever the order): wrong content type, empty content,          *)
+(* option value outside its value set                                                                *)
+(* ------------------------------------------------------------------------------------------------ *)
+Definition is_err {A} (r : res A) : Prop := exists e, r = Err e.
+
+Lemma ncontent_empty_rejected : forall name content le enc ind wle inh extra s,
+  (match content with CText t => t = [] | CBytes b => b = [] end) ->
+  is_err (snd (new_content_section name content le enc ind wle inh extra s)).
+Proof.
+  intros name content le enc ind wle inh extra s H. rewrite ncontent_eq.
+  destruct (validate_section s _) as [[]|e]; [|eexists; reflexivity].
+  assert (Hp : prepare_content s content ind le enc inh = Err ELibContent).
+  { unfold prepare_content. destruct content; subst; reflexivity. }
+  rewrite Hp. eexists; reflexivity.
+Qed.
+
+Lemma ncontent_bad_le_rejected : forall name content le enc ind wle inh extra s,
+  le <> WNone -> in_strset le GenText.line_endings_values <> Ok true ->
+  is_err (snd (new_content_section name content le enc ind wle inh extra s)).
+Proof.
+  intros name content le enc ind wle inh extra s Hn Hbad. rewrite ncontent_eq.
+  destruct (validate_section s _) as [[]|e]; [|eexists; reflexivity].
+  assert (Hp : is_err (prepare_content s content ind le enc inh)).
+  { unfold prepare_content. destruct (match content with CText t => is_nil t | CBytes b => is_nil b end);
+      [eexists; reflexivity|].
+    assert (E : match le with WNone => Ok true | v => in_strset v GenText.line_endings_values end
+                = in_strset le GenText.line_endings_values) by (destruct le; congruence).
+    rewrite E. destruct (in_strset le GenText.line_endings_values) as [[|]|e]; try congruence;
+      eexists; reflexivity. }
+  destruct Hp as [e ->]. eexists; reflexivity.
+Qed.
+
+Theorem C09_reject_malformed : forall c s,
+  match c with
+  | NewChange _ | NewFile _ => True
+  | WritePreamble text _ _ le mt =>
+      (forall t, text = WStr t -> t = []) \/ (le <> WNone /\ in_strset le GenText.line_endings_values <> Ok true)
+      \/ (mt <> WNone /\ in_strset mt GenText.mimetypes <> Ok true)
+  | WriteMeta md _ fmt =>
+      (forall j, md = WDict j -> wv_truthy md = false)
+      \/ (exists v, fmt = Some v /\ in_strset v GenText.meta_formats <> Ok true)
+  | WriteDiff content dt _ le =>
+      (forall b, content = WBytes b -> b = []) \/ (le <> WNone /\ in_strset le GenText.line_endings_values <> Ok true)
+      \/ (dt <> WNone /\ in_strset dt GenText.diff_types <> Ok true)
+  end -> match c with NewChange _ | NewFile _ => True | _ => is_err (snd (do_call c s)) end.
+Proof.
+  intros c s H.
+  destruct c as [en|en|text enc ind le mt|md enc fmt|content dt enc le]; cbn [do_call]; auto.
+  - destruct text; try (eexists; reflexivity).
+    rewrite bind_lift.
+    destruct (match mt with WNone => Ok true | _ => _ end) as [mok|e1] eqn:Em; [|eexists; reflexivity].
+    destruct mok; cbn [negb]; [|eexists; reflexivity].
+    destruct H as [H | [[Hn Hb] | [Hn Hb]]].
+    + apply ncontent_empty_rejected. eauto.
+    + apply ncontent_bad_le_rejected; assumption.
+    + exfalso. apply Hb. destruct mt; congruence.
+  - destruct md; try (eexists; reflexivity).
+    destruct (wv_truthy (WDict j)) eqn:Etr; cbn [negb]; [|eexists; reflexivity].
+    destruct H as [H | (v & -> & Hb)]; [specialize (H j eq_refl); congruence|].
+    rewrite bind_lift.
+    destruct (in_strset v GenText.meta_formats) as [[|]|e1]; try congruence; eexists; reflexivity.
+  - destruct content; try (eexists; reflexivity).
+    rewrite bind_lift.
+    destruct (match dt with WNone => Ok true | _ => _ end) as [tok|e1] eqn:Em; [|eexists; reflexivity].
+    destruct tok; cbn [negb]; [|eexists; reflexivity].
+    destruct H as [H | [[Hn Hb] | [Hn Hb]]].
+    + apply ncontent_empty_rejected. eauto.
+    + apply ncontent_bad_le_rejected; assumption.
+    + exfalso. apply Hb. destruct dt; congruence.
+Qed.
+
+(* ------------------------------------------------------------------------------------------------ *)
+(* examples: the hypotheses are satisfiable, on a concrete writer                                    *)
+(* ------------------------------------------------------------------------------------------------ *)
+Definition U8 : wv := WStr (ascii_text (B "utf-8")).
+Definition V10 : wv := WStr (ascii_text (B "1.0")).
+Definition s_ex : wstate := fst (writer_init U8 V10).
+
+Example ex_init : writer_init U8 V10 = (s_ex, Ok tt) /\ w_out s_ex = B "#diffx: encoding=utf-8, version=1.0" ++ [x0a].
+Proof. vm_compute. split; reflexivity. Qed.
+
+Example ex_reachable : reachable s_ex.
+Proof. eapply reachable_init. exact (proj1 ex_init). Qed.
+
+(* reject (order), reject (unencodable header text), accept: the rejected calls leave the output length at 36 *)
+Example ex_run :
+  run_calls s_ex [NewFile WNone; NewChange (WStr [233%N]); NewChange WNone]
+  = ([(Err ELibOrder, 36); (Err EUnicodeEncode, 36); (Ok tt, 46)],
+     {| w_out := B "#diffx: encoding=utf-8, version=1.0" ++ [x0a] ++ B "#.change:" ++ [x0a];
+        w_stack := [U8; U8; U8];
+        w_prev := Some (B ".change") |}).
+Proof. vm_compute. reflexivity. Qed.
+
+Example ex_atomic : exists c e, reachable s_ex /\ do_call c s_ex = (s_ex, Err e).
+Proof. exists (NewChange (WStr [233%N])), EUnicodeEncode. split; [exact ex_reachable | vm_compute; reflexivity]. Qed.
+
+Definition ex_preamble : call := WritePreamble (WStr (ascii_text (B "hi"))) WNone None WNone WNone.
+
+Example ex_args_ok : args_ok s_ex ex_preamble /\ In (target s_ex ex_preamble) (table (B "diffx")) /\
+                     w_prev s_ex = Some (B "diffx").
+Proof.
+  split; [|split; [apply in_ids_In; vm_compute; reflexivity | vm_compute; reflexivity]].
+  exists (ascii_text (B "hi")). split; [reflexivity|]. split; [discriminate|]. split.
+  - split; [left; reflexivity|]. exists (B "utf-8"), utf8. split.
+    + exists (ascii_text (B "utf-8")), (B "utf-8"). split; [reflexivity|]. split; vm_compute; reflexivity.
+    + eexists. vm_compute. reflexivity.
+  - split; [left; reflexivity|]. split; left; reflexivity.
+Qed.
+
+(* a full document: every call kind accepted once, two order violations rejected without a byte written *)
+Example ex_document :
+  map fst (fst (run_calls s_ex
+    [ex_preamble; WriteDiff (WBytes (B "x")) WNone WNone WNone; NewChange WNone; NewFile WNone;
+     WriteMeta (WDict (JObj [(ascii_text (B "k"), JInt 1)])) WNone None;
+     WriteDiff (WBytes (B "x")) WNone WNone WNone; ex_preamble]))
+  = [Ok tt; Err ELibOrder; Ok tt; Ok tt; Ok tt; Ok tt; Err ELibOrder].
+Proof. vm_compute. reflexivity. Qed.
